@@ -58,6 +58,10 @@ where
     {
         let len = self.len();
         let n_abs = n.unsigned_abs() as usize;
+        if len <= n_abs {
+            // every element is shifted out: only fill values remain (same guard as `vshift`)
+            return Box::new(std::iter::repeat_n(value, len));
+        }
         match n {
             n if n > 0 => Box::new(TrustIter::new(
                 std::iter::repeat_n(value, n_abs).chain(self.take(len - n_abs)),
